@@ -154,6 +154,8 @@ class Engine:
         self.rules = rule_table()
         self.arr = collections.Counter()
         self.applied = collections.Counter()
+        self.pending_plans = []
+        self.plan_stats = collections.Counter()
 
     def model_rule_lines(self, trees):
         return [f"RULE {name} {opt} {P.sx_text(t)}" for t in trees for name, opt, _ in self.rules]
@@ -211,6 +213,9 @@ class Engine:
         # as search agents do: apply to a copy cloned from the root
         work = node.clone_from_root()
         snap = P.snapshot(base)
+        # object identities of the tree the rule is applied to (the list keeps every old object alive, so an id is never re-used)
+        old_objs = P.preorder_objs(work.get_root()) if "plans" in want else None
+        old_ids = {id(o): pth for o, pth in old_objs} if old_objs is not None else None
         try:
             ch = rule.apply_to(work)
             result = ch.result
@@ -248,6 +253,11 @@ class Engine:
                 mt = P.sx_parse(msx)
                 if mp != f"[{rpath}]" or not P.sx_same(after, mt):
                     res.disagreements.append(dict(suite="rules.apply", input=inp, impl=f"[{rpath}] {P.sx_text(after)}", model=m[:400]))
+        if "plans" in want and self.ctx.driver_ok and m is not None and m.startswith("1 ") and not m.startswith("1 EXC"):
+            if len(self.pending_plans) >= 3000:
+                self.flush_plans()
+            self.pending_plans.append((inp, f"PLAN {name} {opt} [{path}] {P.sx_text(t)}", P.sx_text(after),
+                                       " ".join(("[" + old_ids[id(o)] + "]") if id(o) in old_ids else "-" for o, _ in P.preorder_objs(root))))
         # independent oracles
         if "value" in want or "solution-set" in want:
             bad = check_values(rnd, t, after)
@@ -284,7 +294,32 @@ class Engine:
             res.failures.append(dict(**{"class": "find"}, rule=name + opt, input=dict(tree=P.sx_text(t)),
                                      detail=f"find_nodes -> {[P.path_of(n) for n in found]}, applicable {[P.path_of(n) for n in exp]}, find_node -> {P.path_of(first) if first is not None else None}"))
 
+    def flush_plans(self):
+        """the `plans` correspondence: which OBJECTS of the tree the rule was applied to are in the result, and where (Plans.v)."""
+        if not self.pending_plans:
+            return
+        out = common.drive([l for _, l, _, _ in self.pending_plans])
+        for (inp, line, after, prov), m in zip(self.pending_plans, out):
+            self.res.evaluations += 1
+            if not m.startswith("OK "):
+                self.res.disagreements.append(dict(suite="plans", input=inp, impl=f"{after} ; {prov}", model=m[:200]))
+                continue
+            head, mprov = m[3:].split(" ; ", 1) if " ; " in m else (m[3:], "")
+            q, lin, msx = head.split(" ", 2)
+            ok = P.sx_same(P.sx_parse(after), P.sx_parse(msx)) and mprov.strip() == prov.strip()
+            if not ok:
+                self.res.disagreements.append(dict(suite="plans", input=inp, impl=f"{after} ; {prov}", model=m[:600]))
+            if lin != "1":
+                self.res.failures.append(dict(**{"class": "plan-not-linear"}, rule=inp["rule"], input=inp, detail="the model's plan uses an old object twice: " + m[:300]))
+            self.plan_stats["old" if any(x != "-" for x in prov.split()) else "all-fresh"] += 1
+            self.plan_stats["kept objects"] += sum(1 for x in prov.split() if x != "-")
+            self.plan_stats["fresh objects"] += sum(1 for x in prov.split() if x == "-")
+        self.pending_plans = []
+
     def finish(self):
+        self.flush_plans()
+        if self.plan_stats:
+            self.res.dist["plans"] = dict(self.plan_stats)
         self.res.dist["arrangements"] = dict(sorted(self.arr.items()))
         self.res.dist["applications_per_rule"] = dict(sorted(self.applied.items()))
 
